@@ -6,9 +6,10 @@ from c01 import BridgeBase
 class C15(BridgeBase):
     pid = "C15"
     prefixes = ("C15.",)
-    quick_cap = 12000
+    quick_cap = 15000
     mc = [("SkywayBridge_mc", "SkywayBridge_limits", ("quick", "thorough"))]
     gens = [Gen("SkywayBridgeGen", "SkywayBridgeGen_limits_cover", "bfs", tiers=("quick", "thorough"), timeout=600),
+            Gen("SkywayBridgeGen", "SkywayBridgeGen_limbatch_cover", "bfs", tiers=("quick", "thorough"), timeout=600, cap=3000),
             Gen("SkywayBridgeGen", "SkywayBridgeGen_limits_sim", "simulate", num=300, depth=12, tiers=("quick",)),
             Gen("SkywayBridgeGen", "SkywayBridgeGen_limits_sim", "simulate", num=3000, depth=12, tiers=("thorough",))
 ]
